@@ -167,6 +167,11 @@ def load_known(prop):
     return [f for f in data.get("findings", []) if f["property"] == prop and f.get("status", "open") == "open"]
 
 
+def _safe(s):
+    """text that can always be printed (a witness may hold lone surrogates on purpose)"""
+    return str(s).encode("utf-8", "backslashreplace").decode("utf-8")
+
+
 class Reporter:
     """Collects violations, maps them onto known findings, writes replay files and evidence."""
 
@@ -189,7 +194,7 @@ class Reporter:
             if k["key"] == key:
                 if key not in self.known_hit:
                     self.known_hit[key] = 0
-                    print("KNOWN-FINDING: property=%s %s" % (self.prop, k.get("summary", key)))
+                    print(_safe("KNOWN-FINDING: property=%s %s" % (self.prop, k.get("summary", key))))
                 self.known_hit[key] += 1
                 return False
         for v in self.violations:
@@ -205,8 +210,8 @@ class Reporter:
         self.violations.append({"key": key, "path": path, "count": 1})
         print("VIOLATION property=%s replay=%s" % (self.prop, path))
         if what:
-            print("  what: %s" % what)
-        print("  key: %s" % key)
+            print(_safe("  what: %s" % what))
+        print(_safe("  key: %s" % key))
         sys.stdout.flush()
         return True
 
